@@ -3,6 +3,34 @@ from .. import ignoremodel
 from . import c08
 
 
+def context_keeps_range(ses, rep):
+    """Context::new stores the range it is given, bounds untouched (an inverted or empty range selects nothing - it is not "repaired")"""
+    import z3
+    from ..mirsym import Agg, Lazy, RefV
+    from ..summaries import deref_val
+    flagged = []
+    ex = ses.executor("lib", "default", inline=lambda n, f: False)
+    cands = [g for n, l in ex.funcs.items() for g in l if g.name.endswith("::new") and "context.rs" in g.name and g.ret.strip().endswith("Context")]
+    if len(cands) != 1:
+        raise ignoremodel.Inconclusive("Context::new not found") if hasattr(ignoremodel, "Inconclusive") else Exception("Context::new not found")
+    f = cands[0]
+    args = [ex.fresh_lazy(t, p) for p, t in f.params]
+    ri = [i for i, (p, t) in enumerate(f.params) if "Range" in t]
+    outs = [o for o in ex.run(f, args) if o.kind == "return"]
+    T = ex.enums
+    fi = T.field_index("Context", "range")
+    for pi, o in enumerate(outs):
+        v = deref_val(ex, o.state, o.value)
+        got = deref_val(ex, o.state, v.fields[fi]) if isinstance(v, Agg) and fi is not None and fi < len(v.fields) else None
+        ok = bool(ri) and got is args[ri[0]]
+        r, m = ses.obligation(f"context-new/path{pi}/range-stored-as-given", list(o.pc), z3.BoolVal(not ok), "Context.range is the caller's range, unmodified")
+        if r == "sat":
+            flagged.append((f"context-new/path{pi}/range-stored-as-given", "Context::new rewrites the range it is given (an inverted range starts to select statements)", "range", {}))
+    if not outs:
+        flagged.append(("context-new/no-path", "Context::new has no returning path", "range", {}))
+    return flagged
+
+
 def run(ses, rep):
     if rep.tier != "quick":
         ignoremodel.K_TOKENS, ignoremodel.K_LINES, ignoremodel.VISITS = 3, 3, 14
@@ -11,7 +39,7 @@ def run(ses, rep):
     rep.outside += ["statements wholly inside the range come out as in whole-file formatting (needs the whole formatter; replay scenarios only)",
                     "the block-only visitors format_stmt_block / format_last_stmt_block are not encoded: a NotInRange statement is only "
                     "checked to be handed to them"]
-    flagged = c08.analyses(ses, rep)
+    flagged = c08.analyses(ses, rep) + context_keeps_range(ses, rep)
     rep.samples.append({"flagged": [(f[0], f[1]) for f in flagged][:5]})
     c08.confirm(rep, flagged, c08.RANGE_BATTERY, "C09", ("range", "both"))
 
